@@ -1,5 +1,5 @@
 # plan and claim for C02 (SM4 block function)
-_CFG = ["avx2", "avx", "sse", "aesni1", "noaes", "noclmul", "purego", "ia32"]
+_CFG = ["avx2", "avx", "sse", "aesni1", "noaes", "noclmul", "noclmul-avx", "purego", "ia32"]
 PLAN = dict(
     level="exploration",
     rule="block: all 128 single-bit, 128 single-zero-bit, 256 repeated-byte, 16x256 one-byte-position, ascending and multiplicative "
